@@ -150,18 +150,17 @@ func ruleGate(c *Ctx) *RuleResult {
 						r.fail("flagword-written:"+tn+"."+fn+":"+where, p.InstrPos(st), tn+"."+fn+" is written in "+where+", outside its single owner function")
 						return
 					}
-					// value must be (load same field) | x
-					b, isB := st.Val.(*ssa.BinOp)
-					mono := false
-					if isB && b.Op == token.OR {
-						for _, side := range []ssa.Value{b.X, b.Y} {
-							if u, ok := side.(*ssa.UnOp); ok {
-								if fa2, ok := u.X.(*ssa.FieldAddr); ok && fa2.Field == fa.Field && sameLoadChain(fa2.X, fa.X) {
-									mono = true
-								}
+					// value must be monotone in the old value of the same field:
+					// old, old|x, phi of such, or a call whose every result is
+					// monotone in a parameter that receives such a value.
+					mono := monotoneIn(st.Val, func(v ssa.Value) bool {
+						if u, ok := v.(*ssa.UnOp); ok && u.Op == token.MUL {
+							if fa2, ok := u.X.(*ssa.FieldAddr); ok && fa2.Field == fa.Field && sameLoadChain(fa2.X, fa.X) {
+								return true
 							}
 						}
-					}
+						return false
+					}, 0)
 					if mono {
 						r.ok(tn + "." + fn + " |= … in " + where)
 					} else {
@@ -362,6 +361,58 @@ func gateGuards(f *ssa.Function, sink ssa.CallInstruction, ioBit int64) bool {
 		nb := b.Succs[1-zeroIdx]
 		if zb.Dominates(sink.Block()) && len(zb.Preds) == 1 && !blockReaches(nb, sink.Block()) {
 			return true
+		}
+	}
+	return false
+}
+
+// monotoneIn: v >= base bitwise on every path, where isBase recognises the
+// base value. Accepts base, base|x, x|base, phi of monotone values, and calls
+// to functions all of whose returns are monotone in a parameter bound to a
+// monotone argument.
+func monotoneIn(v ssa.Value, isBase func(ssa.Value) bool, depth int) bool {
+	if depth > 4 {
+		return false
+	}
+	if isBase(v) {
+		return true
+	}
+	switch x := v.(type) {
+	case *ssa.BinOp:
+		if x.Op == token.OR {
+			return monotoneIn(x.X, isBase, depth) || monotoneIn(x.Y, isBase, depth)
+		}
+	case *ssa.Phi:
+		for _, e := range x.Edges {
+			if !monotoneIn(e, isBase, depth) {
+				return false
+			}
+		}
+		return len(x.Edges) > 0
+	case *ssa.ChangeType:
+		return monotoneIn(x.X, isBase, depth)
+	case *ssa.Call:
+		cal := x.Call.StaticCallee()
+		if cal == nil || cal.Blocks == nil {
+			return false
+		}
+		for i, a := range x.Call.Args {
+			if i >= len(cal.Params) || !monotoneIn(a, isBase, depth) {
+				continue
+			}
+			prm := cal.Params[i]
+			all, n := true, 0
+			forEachInstr(cal, func(ins ssa.Instruction) {
+				if ret, ok := ins.(*ssa.Return); ok && len(ret.Results) == 1 {
+					n++
+					if !monotoneIn(ret.Results[0], func(w ssa.Value) bool { return w == prm }, depth+1) {
+						all = false
+					}
+				}
+			})
+			if all && n > 0 {
+				return true
+			}
 		}
 	}
 	return false
